@@ -148,7 +148,7 @@ func vC13Hook(s *vKindSys, h []string) {
 								s.c.Violation("fewer-results-with-more-probes", "", s.cfgS, h, fmt.Sprintf("%s: %d results, but %d with p-1", vq.String(), len(res), len(prev)))
 							}
 							for i := range prev {
-								if i < len(res) && float64(res[i].Score) > float64(prev[i].Score)*(1+1e-6)+1e-7 {
+								if i < len(res) && float64(res[i].Score) > float64(prev[i].Score)*(1+1e-6)+1e-7*vTolFloor {
 									s.c.Violation("worse-score-with-more-probes", "", s.cfgS, h, fmt.Sprintf("%s: rank %d score %v > %v with p-1", vq.String(), i, res[i].Score, prev[i].Score))
 								}
 							}
@@ -326,6 +326,22 @@ func init() {
 					}
 				}
 			}
+			// affine transforms of the data (zz_verif_vec.go): scaled by 2^-20, 2^-40, 2^20,
+			// shifted by 4096, 2^20, 20000
+			for _, cfg := range []vVecCfg{{Kind: "ivf", Metric: Euclidean, Dim: 2, NList: 4, Train: 2}, {Kind: "ivf", Metric: L2Squared, Dim: 3, NList: 5, Train: 2}, {Kind: "ivf", Metric: Euclidean, Dim: 2, NList: 16, Train: -4}, {Kind: "ivf", Metric: Cosine, Dim: 3, NList: 3, Train: 2}} {
+				cfg := cfg
+				for _, x := range vXFs {
+					x := x
+					if cfg.Metric == Cosine && x.Off != 0 {
+						continue
+					}
+					sh = append(sh, vShard{Name: fmt.Sprintf("xf/%g:%d/%s", x.Off, x.Exp, strings.ReplaceAll(cfg.String(), " ", ",")), Run: func(c *vCtx) {
+						defer vXFSet(x, cfg.Metric)()
+						vKindSweep(c, cfg, 24, vC13Hook)
+						vKindLarge(c, cfg, []int{70, 200}, vC13Hook)
+					}})
+				}
+			}
 			// large instances (hundreds to thousands of vectors, k up to n)
 			for _, cfg := range []vVecCfg{{Kind: "ivf", Metric: Euclidean, Dim: 2, NList: 4, Train: 2}, {Kind: "ivf", Metric: Cosine, Dim: 3, NList: 3, Train: 2}, {Kind: "ivf", Metric: L2Squared, Dim: 3, NList: 5, Train: 2},
 				// many clusters (probe selection among 16 .. 40 centroids)
@@ -343,10 +359,19 @@ func init() {
 			return sh
 		},
 		Replay: func(c *vCtx, v *vViolation) bool {
+			defer vXFParse(v.Config, vParseVecCfg(v.Config).Metric)()
+			v.Config = vXFStrip(v.Config)
 			if i := strings.Index(v.Config, " large n="); i >= 0 {
 				var n int
 				fmt.Sscanf(v.Config[i:], " large n=%d", &n)
 				vKindLarge(c, vParseVecCfg(v.Config[:i]), []int{n}, vC13Hook)
+				_, ok := c.viol[v.Sig()]
+				return ok
+			}
+			if i := strings.Index(v.Config, " sweep n="); i >= 0 {
+				var n int
+				fmt.Sscanf(v.Config[i:], " sweep n=%d", &n)
+				vKindSweep(c, vParseVecCfg(v.Config[:i]), n+1, vC13Hook)
 				_, ok := c.viol[v.Sig()]
 				return ok
 			}
